@@ -4,3 +4,4 @@ from .. import codec
 
 def run(ctx):
     codec.codec_tables(ctx)
+    codec.big_tables(ctx)
